@@ -293,6 +293,38 @@ def range_bounds(body, op):
     return out
 
 
+import re as _re
+
+
+def slice_const_width(body, op, depth=0):
+    """byte width of a slice operand when it is `x[a..b]` / `x[..b]` with literal bounds - in this fn, or, for a bare parameter of a
+    private fn, at every one of its call sites (all must agree).  None if unknown."""
+    t = trace(body, op)
+    if t.fields:
+        return None
+    if t.kind == "call" and (t.root[1].callee or "") in INDEX_CALLS and len(t.root[1].args) >= 2:
+        rb = range_bounds(body, t.root[1].args[1])
+        if not rb:
+            return None
+        vals = {name: _const_val(body, o) for name, o, agg in rb}
+        if any(v is None for v in vals.values()):
+            return None
+        if set(vals) == {"start", "end"} and vals["end"] >= vals["start"]:
+            return vals["end"] - vals["start"]
+        if set(vals) == {"end"}:
+            return vals["end"]
+        return None
+    if t.kind == "param" and body.kind != "closure" and depth < 2:
+        sites = [(b2, c2) for b2 in body.facts.bodies() for c2 in b2.calls() if c2.resolved == body.name]
+        ws = set()
+        for b2, c2 in sites:
+            i = t.root[1] - 1
+            ws.add(slice_const_width(b2, c2.args[i], depth + 1) if i < len(c2.args) else None)
+        if len(ws) == 1 and None not in ws:
+            return ws.pop()
+    return None
+
+
 def try_discharge(body, site, bounds):
     """returns a reason string if the site provably cannot panic by one of the automatic patterns, else None"""
     it = site.item
@@ -329,7 +361,6 @@ def try_discharge(body, site, bounds):
         # destination and source lengths agree structurally
         dt = trace(body, it.args[0])
         st = trace(body, it.args[1])
-        import re as _re
 
         def idx_range(t):
             if t.kind == "call" and ((t.root[1].callee or "") in INDEX_CALLS or (t.root[1].resolved or "").split("::")[-1] in ("index", "index_mut")) and len(t.root[1].args) == 2 and not t.fields:
@@ -352,7 +383,6 @@ def try_discharge(body, site, bounds):
     if k in ("index", "range"):
         recv = trace(body, it.args[0])
         # a fixed-size array viewed as a slice: BitArray<[u8; N]>::as_raw(_mut)_slice, or an array local
-        import re as _re
         n_fixed = None
         base_ty = None
         if recv.kind == "call" and (recv.root[1].resolved or "").split("::")[-1] in ("as_raw_mut_slice", "as_raw_slice") and recv.root[1].args:
@@ -427,6 +457,14 @@ def try_discharge(body, site, bounds):
         return "; ".join(reasons)
     if k in ("unwrap", "expect"):
         src = trace(body, it.args[0])
+        # `slice[a..b].try_into().unwrap()` into `[u8; N]` with b - a == N (possibly through a private decoding helper)
+        for st in src.steps:
+            if isinstance(st, Term) and st.kind == "call" and (st.callee or "").endswith("TryInto::try_into") and len(st.j.get("targs", [])) == 2:
+                m = _re.match(r"\[u8; (\d+)\]$", st.j["targs"][1])
+                if m and st.args:
+                    w = slice_const_width(body, st.args[0])
+                    if w is not None and w == int(m.group(1)):
+                        return "try_into::<[u8; %d]> of a subslice whose constant range is %d bytes wide" % (w, w)
         if src.kind == "call" and (src.root[1].resolved or "").endswith("NonZero::new"):
             v = _const_val(body, src.root[1].args[0])
             if v is not None and v != 0:
